@@ -18,7 +18,7 @@ import re
 from ..core import H, stream, compile_source, digest
 from ..world import ModInfo, Sim, state_digest
 from ..harness import Result
-from ..qast import (to_text, number_stmts, all_bodies, sub_bodies, name_type, pe, TypeEnv,
+from ..qast import (to_text, number_stmts, all_bodies, sub_bodies, name_type, pe, TypeEnv, strip_names,
                     expr_type, CMP, LOGIC, RANK)
 from .. import scen
 from ..minimise import minimise_scenario
@@ -191,6 +191,33 @@ def gen_expr(r, names, depth):
     return num(depth)
 
 
+def oob_prints(r, names):
+    """Subscripts outside the declared bounds (below and above, at a random
+    dimension) and wrong index counts: must be reported as evaluation errors."""
+    out = []
+    arrs = [(n, t, bs) for n, (t, bs) in sorted(names.arrays.items()) if bs]
+    for _ in range(r.randint(0, 2)):
+        if not arrs:
+            break
+        n, t, bs = r.choice(arrs)
+        idx = [r.randint(lb, ub) for lb, ub in bs]
+        d = r.randrange(len(bs))
+        lb, ub = bs[d]
+        k = r.random()
+        if k < 0.45:
+            idx[d] = lb - r.choice((1, 1, 2, ub - lb + 1))
+        elif k < 0.9:
+            idx[d] = ub + r.choice((1, 2, 10))
+        else:
+            idx = idx + [idx[0]] if r.random() < 0.5 or len(idx) == 1 else idx[:-1]
+        text = '%s(%s)' % (n, ', '.join(str(i) for i in idx))
+        if t.startswith('T:'):
+            leaves = names.env.leaves(t)
+            text += '.' + '.'.join(leaves[0][0])
+        out.append(text)
+    return out
+
+
 BAD_PRINTS = ('nosuchvar%', 'zz9$', '1 +', ') (', 'x% ++ ', 'print', '"abc', '1 2', '',
               'nosuch(1)', '@', 'a.b.c.d')
 
@@ -346,6 +373,8 @@ def execute(scn):
         lines = {mi.stmt_starts[a][2] for a in seen if a in mi.stmt_starts}
         cands = [c for c in candidate_stops(scn['ast'])
                  if pos.get(c[0]) and pos[c[0]][0] in lines]
+        # stops inside procedure frames are the interesting ones: weight 4
+        cands = cands + [c for c in cands if c[1] != '_main'] * 3
         stops = []
         if cands:
             for _ in range(3):
@@ -357,8 +386,15 @@ def execute(scn):
                         exprs.append(gen_expr(rp, names, rp.choice((0, 1, 2))))
                     except Exception:
                         pass
+                if rp.random() < 0.3 and names.scalars:
+                    # a value the type cannot hold: must not crash the debugger
+                    nm = rp.choice(sorted(names.scalars))
+                    if names.scalars[nm] in ('%', '&'):
+                        exprs.append(['bin', '*', ['bin', '+', ['var', nm], ['lit', '%', 3]],
+                                      ['lit', names.scalars[nm], 30000 if names.scalars[nm] == '%' else 2000000000]])
                 if exprs:
                     stops.append({'id': sid, 'j': rp.choice((1, 1, 2, 3)), 'exprs': exprs,
+                                  'oob': oob_prints(rp, names),
                                   'bad': [rp.choice(BAD_PRINTS) for _ in range(rp.randint(0, 2))],
                                   'how': rp.choice(('break', 'break', 'step'))})
         stops.append({'id': None, 'j': 1, 'exprs': [], 'bad': [rp.choice(BAD_PRINTS)],
@@ -417,9 +453,12 @@ def one_stop(scn, st, mi, pos, res, opt):
             return
         rows = tw[1]
         if len(rows) < st['j']:
-            res.count('stop_never_reached_in_twin')
-            return
-        expected = rows[st['j'] - 1]
+            # the inserted PRINT did not complete there (it trapped, or the
+            # arrival does not exist): only crash / state checks apply
+            res.count('stop_without_twin_values')
+            expected = None
+        else:
+            expected = rows[st['j'] - 1]
         recs = sorted([s for s in mi.stmts if s[2] == line and s[1] > s[0]], key=lambda s: s[4])
         if not recs:
             res.count('stop_line_without_code')
@@ -459,7 +498,8 @@ def one_stop(scn, st, mi, pos, res, opt):
         if fd > 2:
             res.count('stops_with_nested_frames')
     # --- the prints ----------------------------------------------------------
-    cmds = [('expr', pe(e), i) for i, e in enumerate(st['exprs'])] + \
+    cmds = [('expr', strip_names(pe(e), scn['ast']), i) for i, e in enumerate(st['exprs'])] + \
+           [('oob', strip_names(b, scn['ast']), None) for b in st.get('oob', [])] + \
            [('bad', b, None) for b in st['bad']]
     for kind, text, i in cmds:
         d0 = state_digest(sim)
@@ -481,6 +521,14 @@ def one_stop(scn, st, mi, pos, res, opt):
         if kind == 'bad':
             res.count('error_prints_checked')
             continue
+        if kind == 'oob':
+            shown = outp.rstrip('\n')
+            if not (shown.startswith('Eval error') or shown.startswith('Error parsing')):
+                bad('C13:error-not-reported', {'print': text, 'debugger': shown[:200],
+                                               'how': st['how']}, sig={'kind': 'subscript'})
+                return
+            res.count('out_of_range_prints_checked')
+            continue
         if st['how'] == 'finish' or expected is None or i >= len(expected):
             continue
         shown = outp.rstrip('\n')
@@ -491,7 +539,7 @@ def one_stop(scn, st, mi, pos, res, opt):
                 nm = shown.split(':', 1)[1].split()[0]
                 ne = len(st['exprs'])
                 mine = [expected[ne + k][1] for k, lf in enumerate(leaves)
-                        if base_name(lf) == nm and ne + k < len(expected)]
+                        if strip_names(base_name(lf), scn['ast']) == nm and ne + k < len(expected)]
                 if mine and all(v in (0, 0.0, '') for v in mine):
                     res.count('inconclusive_unassigned_location')
                     continue
